@@ -476,13 +476,18 @@ def periodics(factories):
 
 
 def purge(node: dawgie.pl.dag.Node, target: str):
+    executing = target in node.get('doing', [])  # its reply is still to come
     if target in node.get('do', []):
         node.get('do').remove(target)
     if target in node.get('doing', []):
         node.get('doing').remove(target)
     if target in node.get('todo', []):
         node.get('todo').remove(target)
-    if node in que and not (node.get('todo', []) or node.get('doing', [])):
+    if (
+        not executing
+        and node in que
+        and not (node.get('todo', []) or node.get('doing', []))
+    ):
         que.remove(node)
 
     # an algorithm that reads one of its own state vectors is its own child in
